@@ -18,6 +18,7 @@
 //	soup       grammar-directed token soups (every token class, escapes, nesting)
 //	decls/rules declaration-list and rule-list shaped texts
 //	nth        An+B shaped texts
+//	nth-grid   every An+B form x one extra token of every kind at every token boundary (cssedge.NthGrid)
 //	tests      inputs of /repo/css/parser/css-parsing-tests/*.json
 //	mut-*      every-prefix / single-rune deletion / replacement of the above
 //	color-grid / color-tests / color   ParseColorString, see color.go
@@ -814,6 +815,9 @@ func main() {
 	for _, c := range cssedge.Contexts(extra) {
 		c.Enumerate(func(s string) { rn.run("exhaust-ctx", eTok, 0, s) })
 	}
+	// 2c'. An+B: every form of the grammar with one extra token of every kind at every token boundary
+	// (leading, between, trailing): the grammar rejects all of them except comments / white space
+	cssedge.NthGrid(true, func(s string) { rn.run("nth-grid", eNth, 0, s) })
 	// 2d. colours: deterministic grid + the css-parsing-tests colour inputs
 	colorGrid(func(s string) { rn.run("color-grid", eColor, 0, s) })
 	for _, s := range colorTestInputs() {
